@@ -341,6 +341,37 @@ def cv_le(p):
         raise Violation("classical_value %.9f > brute-force maximum over +/-1 assignments %.9f" % (got, exp))
 
 
+def cv_reps2(p):
+    """XORGame(prob, pred, reps=2).classical_value() == classical value of the 2-fold parallel repetition (both rounds must be won),
+    by exhaustive search over Alice's answer functions with Bob's best response computed question by question"""
+    import numpy as np
+
+    from vt.contract import Violation
+
+    g, prob, pred = _game(p, reps=2)
+    X, Y = prob.shape
+    f = np.asarray(pred).astype(int) % 2
+    got = float(g.classical_value())
+    qa = [(x1, x2) for x1 in range(X) for x2 in range(X)]
+    qb = [(y1, y2) for y1 in range(Y) for y2 in range(Y)]
+    ans = [(0, 0), (0, 1), (1, 0), (1, 1)]
+    # W[ia, ib, ix, iy] = pi(x1,y1) pi(x2,y2) [a1^b1 == f(x1,y1)] [a2^b2 == f(x2,y2)]
+    W = np.zeros((4, 4, len(qa), len(qb)))
+    for ix, (x1, x2) in enumerate(qa):
+        for iy, (y1, y2) in enumerate(qb):
+            w = prob[x1, y1] * prob[x2, y2]
+            for ia, (a1, a2) in enumerate(ans):
+                for ib, (b1, b2) in enumerate(ans):
+                    if (a1 ^ b1) == f[x1, y1] and (a2 ^ b2) == f[x2, y2]:
+                        W[ia, ib, ix, iy] = w
+    best = -1.0
+    for fa in itertools.product(range(4), repeat=len(qa)):
+        tot = W[list(fa), :, list(range(len(qa))), :].sum(axis=0)  # (ib, iy)
+        best = max(best, float(tot.max(axis=0).sum()))
+    if abs(got - best) > 1e-9:
+        raise Violation("classical_value of the 2-fold repetition of a %d x %d XOR game = %.9f, exhaustive search over the product game = %.9f" % (X, Y, got, best))
+
+
 def conv_pred(p):
     """to_nonlocal_game(): V[a,b,x,y] == [f(x,y) == a xor b], same distribution, XOR object unchanged; same classical value"""
     import numpy as np
@@ -740,6 +771,7 @@ CLAUSES = {
     "xor.npa1_ge": npa1_ge,
     "xor.npa1_le": npa1_le,
     "xor.cv_ge": cv_ge,
+    "xor.cv_reps2": cv_reps2,
     "xor.cv_le": cv_le,
     "xor.conv_pred": conv_pred,
     "xor.ns_value": ns_value,
@@ -758,6 +790,7 @@ _FN = {
     "xor.npa1_ge": "XORGame.to_nonlocal_game/commuting_measurement_value_upper_bound",
     "xor.npa1_le": "XORGame.to_nonlocal_game/commuting_measurement_value_upper_bound",
     "xor.cv_ge": "XORGame.classical_value",
+    "xor.cv_reps2": "XORGame.classical_value",
     "xor.cv_le": "XORGame.classical_value",
     "xor.conv_pred": "XORGame.to_nonlocal_game",
     "xor.ns_value": "XORGame.nonsignaling_value",
@@ -830,6 +863,9 @@ def cases(tier, seed):
                 base = dict(shape=[X, Y], dist="random", seed=seed + 13 * X + Y, reps=r)
                 add("xor.qv_ge", dict(base), "xor/reps=%d" % r, nt)
                 add("xor.qv_le", dict(base), "xor/reps=%d" % r, nt)
+    # ---- two repetitions, classical value, square and rectangular question sets (4**(X*X) answer functions of Alice are enumerated)
+    for shp in ([2, 2], [2, 3], [1, 3], [2, 1]):
+        add("xor.cv_reps2", dict(shape=shp, dist="random", seed=seed + 41), "xor/reps=2/classical/%s" % shape_class(*shp))
     # ---- named games
     for name in ("chsh", "chsh-biased", "oddcycle3", "oddcycle5"):
         for cl in value_clauses + sdp_clauses:
